@@ -279,6 +279,12 @@ func c04Evaluate(ctx *Ctx, dir string, tf c04Files, cfg c04Cfg) ([]c04Finding, *
 	// (a') "performs": an AUTOFIX line that -F (or -f -F) logs for a file which is
 	// byte-identical before and after the run announces something that was not
 	// performed -- unless the logged action is a no-op by itself
+	owners := map[string]string{} // AUTOFIX line -> kind of the diagnostic it belongs to (from -f -F, else -f)
+	for _, src := range []*c04Out{show, both} {
+		for _, st := range c16Owners(src.Res.Stdout) {
+			owners[st.fix.Key()] = st.owner
+		}
+	}
 	for _, o := range []*c04Out{fix, both} {
 		seenKey := map[string]bool{}
 		for _, d := range o.Fixes {
@@ -288,7 +294,11 @@ func c04Evaluate(ctx *Ctx, dir string, tf c04Files, cfg c04Cfg) ([]c04Finding, *
 			if !okB || !okA || before != after || c04NoopAction(d.Msg) {
 				continue
 			}
-			key := "C04/a/announced-not-performed/file-unchanged/" + c04FileKind(p) + "/" + MsgKind(d.Msg)
+			owner := owners[d.Key()]
+			if owner == "" {
+				owner = "(not announced by -f) " + MsgKind(d.Msg)
+			}
+			key := "C04/a/announced-not-performed/file-unchanged/" + c16FileKind(p) + "/" + owner
 			if seenKey[key] {
 				continue
 			}
@@ -719,6 +729,7 @@ func c04WholeRun(ctx *Ctx, res *Result, rng *Rng, ntrees int) {
 		os.RemoveAll(g.Root)
 		if i%3 != 0 {
 			c04Augment(j.rng.Fork(), tf, g.Pkgs, j.opts.Density, g.Features)
+			c04Augment2(j.rng.Fork(), tf, g.Pkgs, j.opts.Density, g.Features)
 		}
 		for _, cfg := range c04Configs(ctx, j.rng, dir, tf, i) {
 			fs, obs := c04Evaluate(ctx, dir, tf, cfg)
